@@ -468,10 +468,14 @@ namespace occa {
     memory mem(modeDevice->malloc(bytes, src, memProps));
     mem.setDtype(dtype);
 
-    modeDevice->bytesAllocated += bytes;
-    modeDevice->maxBytesAllocated = std::max(
-      modeDevice->maxBytesAllocated, modeDevice->bytesAllocated
-    );
+    // Wrapped host pointers (use_host_pointer) are not device allocations:
+    // ~modeBuffer_t does not subtract them either
+    if (!mem.getModeMemory()->modeBuffer->isWrapped) {
+      modeDevice->bytesAllocated += bytes;
+      modeDevice->maxBytesAllocated = std::max(
+        modeDevice->maxBytesAllocated, modeDevice->bytesAllocated
+      );
+    }
 
     return mem;
   }
